@@ -291,12 +291,12 @@ Proof.
     - intros H; inversion H; subst. tsimpl. repeat split.
       exists []. rewrite app_nil_r. split; [reflexivity|constructor]. }
   destruct H1 as (U1 & U2 & news & U4 & HF).
-  assert (G1 : forall x, snd_una (match (map (fun h => mkSeg h []) (oneshot t) ++ map t_seg (filter t_needs (retx t1))) with
+  assert (G1 : forall x, snd_una (match map t_seg (filter t_needs (retx t1)) with
                        | [] => set_retx t1 x | _ :: _ => set_rto (set_retx t1 x) RTO end) = snd_una t1)
-    by (intros; destruct (map _ (oneshot t) ++ _); reflexivity).
-  assert (G2 : forall x, snd_wnd (match (map (fun h => mkSeg h []) (oneshot t) ++ map t_seg (filter t_needs (retx t1))) with
+    by (intros; destruct (map t_seg (filter t_needs (retx t1))); reflexivity).
+  assert (G2 : forall x, snd_wnd (match map t_seg (filter t_needs (retx t1)) with
                        | [] => set_retx t1 x | _ :: _ => set_rto (set_retx t1 x) RTO end) = snd_wnd t1)
-    by (intros; destruct (map _ (oneshot t) ++ _); reflexivity).
+    by (intros; destruct (map t_seg (filter t_needs (retx t1))); reflexivity).
   rewrite G1, G2, U1, U2. repeat split.
   exists (map t_seg news). split.
   - rewrite U4, filter_app, map_app. rewrite (filter_all_needs news).
@@ -864,7 +864,7 @@ Proof.
   intros H; inversion H; subst; clear H.
   assert (H2 : InvR (set_retx t1 (map (fun tx => mkTx (t_seg tx) false) (retx t1))))
     by (apply InvR_retx_map; [reflexivity|assumption]).
-  eapply InvR_frame; [exact H2|exact HI'|..]; destruct (_ ++ _); reflexivity.
+  eapply InvR_frame; [exact H2|exact HI'|..]; destruct (map t_seg _); reflexivity.
 Qed.
 
 Lemma tcb_open_InvR lp rp iss mtu0 : u16 lp -> u16 rp -> u32 iss ->
@@ -1049,7 +1049,10 @@ Definition wf_cfg (c : config) : Prop :=
   u16 (portA c) /\ u16 (portB c) /\ u32 (issA c) /\ u32 (issB c) /\
   SPACE_FOR_HEADERS <= mtuA c <= 65535 /\ SPACE_FOR_HEADERS <= mtuB c <= 65535.
 Definition wf_label (l : label) : Prop :=
-  match l with LTick _ ms => 0 <= ms | LInject _ seg => wf_seg seg | _ => True end.
+  match l with
+  | LTick _ ms => 0 <= ms | LFairT _ ms _ => 0 <= ms | LInject _ seg => wf_seg seg
+  | _ => True
+  end.
 
 Definition end_ok (e : endpoint) : Prop := match e with ELive t => Inv t | _ => True end.
 Record SysInv (s : sys) : Prop := mkSysInv {
@@ -1157,13 +1160,23 @@ Proof.
   apply SysInv_set_net; assumption.
 Qed.
 
-Lemma fair_half_inv c s x : wf_cfg c -> SysInv s -> SysInv (fair_half c s x).
+Lemma fair_half_t_inv c s x ms one : wf_cfg c -> 0 <= ms -> SysInv s -> SysInv (fair_half_t c s x ms one).
 Proof.
-  intros Hc Hs. unfold fair_half.
-  assert (H1 : SysInv (fst (tick s x 101))) by (apply tick_inv; [assumption|lia]).
+  intros Hc Hms Hs. unfold fair_half_t.
+  assert (H1 : SysInv (fst (tick s x ms))) by (apply tick_inv; assumption).
   destruct (emit_inv _ x H1) as [H2 _].
-  destruct (emit (fst (tick s x 101)) x) as [[s2 segs] bad]. cbn [fst] in H2.
+  destruct (emit (fst (tick s x ms)) x) as [[s2 segs] bad]. cbn [fst] in H2.
   apply recv_inv, recv_inv, deliver_all_inv; assumption.
+Qed.
+
+Lemma fair_half_inv c s x : wf_cfg c -> SysInv s -> SysInv (fair_half c s x).
+Proof. intros Hc Hs. unfold fair_half. apply fair_half_t_inv; [assumption|lia|assumption]. Qed.
+
+Lemma fair_rounds_t_inv k c ms one : wf_cfg c -> 0 <= ms ->
+  forall s, SysInv s -> SysInv (fair_rounds_t k c s ms one).
+Proof.
+  intros Hc Hms. induction k as [|k IH]; intros s Hs; cbn [fair_rounds_t]; [assumption|].
+  apply IH. apply fair_half_t_inv; try assumption. apply fair_half_t_inv; assumption.
 Qed.
 
 Lemma fair_rounds_inv k c : wf_cfg c -> forall s, SysInv s -> SysInv (fair_rounds k c s).
@@ -1180,7 +1193,7 @@ Qed.
 Lemma sys_step_inv c s l : wf_cfg c -> wf_label l -> SysInv s -> SysInv (fst (sys_step c s l)).
 Proof.
   intros Hc Hl Hs. unfold sys_step. rewrite (si_np _ Hs).
-  destruct l as [x|x bytes|x|x|x ms|x|x i|x i|x i|x seg|k|]; cbn [wf_label] in Hl.
+  destruct l as [x|x bytes|x|x|x ms|x|x i|x i|x i|x seg|k|k ms one|]; cbn [wf_label] in Hl.
   - (* open *)
     destruct (end_of s x) eqn:Ee; cbn [fst]; try assumption.
     apply SysInv_set_end; [assumption|]. cbn.
@@ -1216,6 +1229,7 @@ Proof.
     apply nth_error_In in Enth. rewrite Forall_forall in Hn. auto.
   - apply arrive_inv; assumption.
   - cbn [fst]. apply fair_rounds_inv; assumption.
+  - cbn [fst]. apply fair_rounds_t_inv; assumption.
   - assumption.
 Qed.
 
